@@ -85,15 +85,15 @@ class Tap:
                     self.arm = (left, fn)
 
     async def drain(self):
-        # `failing` refuses writes only: a frame the transport took before is flushed
-        if self.grace:
-            self.grace = False
-            return
-        exc = self.link.reset[self.side]
-        if exc is not None:
-            raise exc
-        if self.w.is_closing():
-            raise ConnectionResetError('Connection lost')
+        # `failing` refuses writes only: a frame the transport took before is flushed; so is the frame that
+        # triggered `arm` (grace)
+        grace, self.grace = self.grace, False
+        if not grace:
+            exc = self.link.reset[self.side]
+            if exc is not None:
+                raise exc
+            if self.w.is_closing():
+                raise ConnectionResetError('Connection lost')
         if self.paused:
             fut = asyncio.get_running_loop().create_future()
             self.gates.append(fut)
